@@ -1,7 +1,9 @@
 (** C08 — wire codecs: total, consistent with length predictions, round-trip.
     Only statements live here; each is closed by [exact] of a lemma proved elsewhere. *)
-From Coq Require Import List ZArith.
-From V Require Import Gen.Params Wire.Varint Wire.VarintProofs.
+From Coq Require Import List ZArith Bool.
+From V Require Import Gen.Params Lib.Hex Wire.Varint Wire.VarintProofs.
+From V Require Import Wire.FramesBase Wire.FramesBaseProofs Wire.FramesCtl Wire.FramesCtlProofs Wire.FramesStream
+  Wire.FramesStreamProofs Wire.FramesAck Wire.FramesAckProofs Wire.Frames Wire.FramesProofs.
 Import ListNotations.
 Open Scope Z_scope.
 
@@ -16,3 +18,221 @@ Theorem C08_varint_length : forall v, 0 <= v <= maxVarInt8 ->
   Z.of_nat (length (vappend v)) = vlen v.
 Proof. exact vappend_length. Qed.
 Print Assumptions C08_varint_length.
+
+(* ==== frames ==== *)
+
+(** Every well-formed frame of every kind (22 kinds), encoded by Append, is parsed back by the
+    frame parser (ParseType + dispatch) at every encryption level that allows its type and with
+    every parser configuration that knows its type: the value comes back (ACK: first 64 ranges,
+    delay rescaled by the receiver's exponent; ACK_FREQUENCY: whole microseconds), the consumed
+    count is exactly the encoded length, and the bytes that follow are untouched.  STREAM and
+    DATAGRAM frames without a length field must be last. *)
+Theorem C08_frame_roundtrip : forall c lvl f enc rest,
+  wf_frame f -> append_frame f = Some enc ->
+  type_valid c (frame_type f) = true -> type_allowed lvl (frame_type f) = true ->
+  (self_delimiting f = false -> rest = []) ->
+  parse_next c lvl (enc ++ rest) = Ok (norm c lvl f, zlen enc, rest).
+Proof. exact frame_roundtrip. Qed.
+Print Assumptions C08_frame_roundtrip.
+
+(** Length() is the encoded length, for every frame kind. *)
+Theorem C08_frame_length : forall f enc,
+  wf_frame f -> append_frame f = Some enc -> zlen enc = length_frame f.
+Proof. exact frame_length. Qed.
+Print Assumptions C08_frame_length.
+
+(** non-vacuity: a STREAM frame, an ACK with two ranges and ECN, a NEW_CONNECTION_ID *)
+Example C08_frame_roundtrip_nonvacuous :
+  wf_frame (FStream 4 1000 [1; 2; 3] true true) /\
+  type_allowed 4 (frame_type (FStream 4 1000 [1; 2; 3] true true)) = true /\
+  append_frame (FStream 4 1000 [1; 2; 3] true true) = Some [15; 4; 67; 232; 3; 1; 2; 3] /\
+  wf_frame (FAck [(90, 100); (10, 20)] 16000 1 0 0) /\
+  type_allowed 1 (frame_type (FAck [(90, 100); (10, 20)] 16000 1 0 0)) = true /\
+  append_frame (FAck [(90, 100); (10, 20)] 16000 1 0 0) = Some [3; 64; 100; 2; 1; 10; 64; 68; 10; 1; 0; 0] /\
+  wf_frame (FNewConnectionID 7 3 [1; 2; 3; 4] (repeat 9 16)) /\
+  type_valid (Cfg false false false 3) (frame_type (FNewConnectionID 7 3 [1; 2; 3; 4] (repeat 9 16))) = true.
+Proof. vm_compute. repeat split; try discriminate; auto. Qed.
+Print Assumptions C08_frame_roundtrip_nonvacuous.
+
+(** PADDING before a frame is skipped and counted in the consumed length. *)
+Theorem C08_frame_padding : forall c lvl k b f n rest,
+  parse_next c lvl b = Ok (f, n, rest) ->
+  parse_next c lvl (repeat 0 k ++ b) = Ok (f, n + Z.of_nat k, rest).
+Proof. exact parse_next_padding. Qed.
+Print Assumptions C08_frame_padding.
+
+(** The ACK delay: with the sender's exponent (3 = the default every level but 1-RTT uses) the
+    delay comes back rounded down to a multiple of 8 microseconds; never larger, less than 8 µs smaller. *)
+Theorem C08_ack_delay_quantised : forall d, 0 <= d <= maxInt64 ->
+  ack_delay_ns (encode_ack_delay d) W_AckDelayExponent = d - d mod 8000.
+Proof. exact ack_delay_quantised. Qed.
+Print Assumptions C08_ack_delay_quantised.
+
+(** Ranges a sender holds (descending, disjoint, non-adjacent) pass the receiver's validateAckRanges. *)
+Theorem C08_ack_ranges_valid : forall ranges, wf_ranges ranges -> validate_ack_ranges ranges = true.
+Proof. exact wf_ranges_validate. Qed.
+Print Assumptions C08_ack_ranges_valid.
+
+(** MaxDataLen: any amount of STREAM data up to MaxDataLen(maxSize) yields a frame of at most
+    maxSize bytes (data lengths that fit a 2-byte varint, i.e. every real packet) ... *)
+Theorem C08_maxdatalen_stream : forall sid off dlp maxSize data,
+  vwf sid -> vwf off ->
+  zlen data <= maxdatalen_stream sid off dlp maxSize -> zlen data <= maxVarInt2 ->
+  0 < maxdatalen_stream sid off dlp maxSize ->
+  length_stream sid off data dlp <= maxSize.
+Proof. exact maxdatalen_stream_fits. Qed.
+Print Assumptions C08_maxdatalen_stream.
+
+(** ... and one byte more would not fit. *)
+Theorem C08_maxdatalen_stream_maximal : forall sid off dlp maxSize data,
+  0 <= maxSize -> 0 < stream_hdr_len sid off -> vwf (zlen data) ->
+  maxdatalen_stream sid off dlp maxSize < zlen data ->
+  maxSize < length_stream sid off data dlp.
+Proof. exact maxdatalen_stream_maximal. Qed.
+Print Assumptions C08_maxdatalen_stream_maximal.
+
+Theorem C08_maxdatalen_crypto : forall off maxSize data,
+  vwf off -> zlen data <= maxdatalen_crypto off maxSize -> zlen data <= maxVarInt2 ->
+  0 < maxdatalen_crypto off maxSize -> length_crypto off data <= maxSize.
+Proof. exact maxdatalen_crypto_fits. Qed.
+Print Assumptions C08_maxdatalen_crypto.
+
+Theorem C08_maxdatalen_datagram : forall dlp maxSize data,
+  zlen data <= maxdatalen_datagram dlp maxSize -> zlen data <= maxVarInt2 ->
+  0 < maxdatalen_datagram dlp maxSize -> length_datagram dlp data <= maxSize.
+Proof. exact maxdatalen_datagram_fits. Qed.
+Print Assumptions C08_maxdatalen_datagram.
+
+(** Outside that domain the bound is false: MaxDataLen(16390) of a CRYPTO frame at offset 0
+    allows 16386 bytes of data, which makes a 16392-byte frame. (Unreachable: packets are at most
+    MaxPacketBufferSize = 1452 bytes. Replayed on the implementation by the harness.) *)
+Theorem C08_maxdatalen_refuted_large : exists off maxSize, forall data,
+  zlen data = maxdatalen_crypto off maxSize -> maxSize < length_crypto off data.
+Proof. exact maxdatalen_crypto_refuted_large. Qed.
+Print Assumptions C08_maxdatalen_refuted_large.
+
+(** MaybeSplitOffFrame (STREAM): nothing changes when the frame fits or nothing fits; otherwise
+    the two frames carry exactly the original byte range at the right offsets, FIN stays on the
+    second, and the first fits into maxSize with at least one byte of data. *)
+Theorem C08_split_stream : forall sid off data fin dlp maxSize,
+  wf_stream sid off data fin -> 0 <= maxSize ->
+  match split_stream sid off data fin dlp maxSize with
+  | (None, false, f') => f' = FStream sid off data fin dlp /\ length_stream sid off data dlp <= maxSize
+  | (None, true, f') => f' = FStream sid off data fin dlp /\ maxSize < length_stream sid off data dlp
+                        /\ maxdatalen_stream sid off dlp maxSize = 0
+  | (Some (FStream s1 o1 d1 fin1 l1), true, FStream s2 o2 d2 fin2 l2) =>
+      s1 = sid /\ s2 = sid /\ o1 = off /\ o2 = off + zlen d1 /\ d1 ++ d2 = data
+      /\ fin1 = false /\ fin2 = fin /\ l1 = dlp /\ l2 = dlp
+      /\ 0 < zlen d1 < zlen data /\ length_stream sid off d1 dlp <= maxSize
+  | _ => False
+  end.
+Proof. exact split_stream_spec. Qed.
+Print Assumptions C08_split_stream.
+
+Theorem C08_split_crypto : forall off data maxSize,
+  wf_crypto off data -> zlen data <= maxVarInt2 -> 0 <= maxSize ->
+  match split_crypto off data maxSize with
+  | (None, false, f') => f' = FCrypto off data /\ length_crypto off data <= maxSize
+  | (None, true, f') => f' = FCrypto off data /\ maxSize < length_crypto off data /\ maxdatalen_crypto off maxSize = 0
+  | (Some (FCrypto o1 d1), true, FCrypto o2 d2) =>
+      o1 = off /\ o2 = off + zlen d1 /\ d1 ++ d2 = data /\ 0 < zlen d1 < zlen data
+      /\ length_crypto off d1 <= maxSize
+  | _ => False
+  end.
+Proof. exact split_crypto_spec. Qed.
+Print Assumptions C08_split_crypto.
+
+(** Rejections.  Stream counts above 2^60 (MAX_STREAMS, STREAMS_BLOCKED): *)
+Theorem C08_reject_stream_count : forall uni n rest,
+  vwf n -> 2 ^ 60 < n ->
+  parse_max_streams uni (vappend n ++ rest) = Err 13 0 /\ parse_streams_blocked uni (vappend n ++ rest) = Err 13 0.
+Proof.
+  intros uni n rest V L. rewrite <- max_stream_count_is_2_60 in L.
+  split; [exact (reject_stream_count_max_streams uni n rest V L) | exact (reject_stream_count_streams_blocked uni n rest V L)].
+Qed.
+Print Assumptions C08_reject_stream_count.
+
+(** RESET_STREAM_AT with a reliable size above the final size: *)
+Theorem C08_reject_reliable_size : forall s e fs rs rest,
+  vwf s -> vwf e -> vwf fs -> vwf rs -> fs < rs ->
+  parse_reset_stream true (vappend s ++ vappend e ++ vappend fs ++ vappend rs ++ rest) = Err 14 0.
+Proof. exact reject_reliable_size. Qed.
+Print Assumptions C08_reject_reliable_size.
+
+(** NEW_CONNECTION_ID with Retire Prior To above the sequence number: *)
+Theorem C08_reject_retire_prior_to : forall s r rest,
+  vwf s -> vwf r -> s < r -> parse_new_cid (vappend s ++ vappend r ++ rest) = Err 15 0.
+Proof. exact reject_retire_prior_to. Qed.
+Print Assumptions C08_reject_retire_prior_to.
+
+(** NEW_CONNECTION_ID with a zero-length connection ID or one longer than 20 bytes: *)
+Theorem C08_reject_cid_len : forall s r l rest,
+  vwf s -> vwf r -> r <= s -> l = 0 \/ 20 < l ->
+  exists e, (e = 16 \/ e = 17) /\ parse_new_cid (vappend s ++ vappend r ++ l :: rest) = Err e 0.
+Proof. intros s r l rest Vs Vr Hle Hl. rewrite <- max_conn_id_len_is_20 in Hl. exact (reject_cid_len s r l rest Vs Vr Hle Hl). Qed.
+Print Assumptions C08_reject_cid_len.
+
+(** STREAM data that would end beyond offset 2^62-1: *)
+Theorem C08_reject_stream_overflow : forall sid off data fin rest,
+  vwf sid -> vwf off -> zlen data <= W_MaxPacketBufferSize -> W_MaxByteCount < off + zlen data ->
+  parse_stream (stream_type off fin true) (body_stream sid off data true ++ rest) = Err 12 0.
+Proof. exact reject_stream_overflow. Qed.
+Print Assumptions C08_reject_stream_overflow.
+
+(** ACK whose first range is longer than the largest acknowledged, or whose next range would
+    start below zero (gap or length too large): *)
+Theorem C08_reject_ack_first_range : forall ecn exp la d n ab rest,
+  vwf la -> vwf d -> vwf n -> vwf ab -> la < ab ->
+  parse_ack ecn exp (vappend la ++ vappend d ++ vappend n ++ vappend ab ++ rest) = Err 10 0.
+Proof. exact reject_ack_first_range. Qed.
+Print Assumptions C08_reject_ack_first_range.
+
+Theorem C08_reject_ack_gap : forall ecn exp la d n ab gap rest,
+  vwf la -> vwf d -> vwf n -> vwf ab -> vwf gap -> ab <= la -> 1 <= n -> la - ab < gap + 2 ->
+  parse_ack ecn exp (vappend la ++ vappend d ++ vappend n ++ vappend ab ++ vappend gap ++ rest) = Err 11 0.
+Proof. exact reject_ack_gap. Qed.
+Print Assumptions C08_reject_ack_gap.
+
+Theorem C08_reject_ack_range_len : forall ecn exp la d n ab gap len rest,
+  vwf la -> vwf d -> vwf n -> vwf ab -> vwf gap -> vwf len -> ab <= la -> 1 <= n -> gap + 2 <= la - ab ->
+  la - ab - gap - 2 < len ->
+  parse_ack ecn exp (vappend la ++ vappend d ++ vappend n ++ vappend ab ++ vappend gap ++ vappend len ++ rest) = Err 11 0.
+Proof. exact reject_ack_range_len. Qed.
+Print Assumptions C08_reject_ack_range_len.
+
+(** A frame type that is known but not allowed at the encryption level is refused before its
+    body is looked at; an unknown type (or an extension that was not negotiated) likewise. *)
+Theorem C08_reject_not_allowed : forall c lvl t body,
+  vwf t -> t <> 0 -> type_valid c t = true -> type_allowed lvl t = false ->
+  parse_next c lvl (vappend t ++ body) = Err 5 (vlen t).
+Proof. exact reject_not_allowed. Qed.
+Print Assumptions C08_reject_not_allowed.
+
+Theorem C08_reject_unknown_type : forall c lvl t body,
+  vwf t -> t <> 0 -> type_valid c t = false ->
+  parse_next c lvl (vappend t ++ body) = Err 4 (vlen t).
+Proof. exact reject_unknown_type. Qed.
+Print Assumptions C08_reject_unknown_type.
+
+(** The per-level allow-list (generated from isAllowedAtEncLevel): everything it allows RFC 9000
+    table 3 allows, except HANDSHAKE_DONE at the 0-RTT level; Initial/Handshake allow exactly
+    PING, ACK, CRYPTO and CONNECTION_CLOSE(0x1c). *)
+Theorem C08_allow_list_within_rfc :
+  forallb (fun lvl => forallb (fun t =>
+     implb (type_allowed lvl t) (rfc9000_allowed lvl t || ((lvl =? 3) && (t =? 30)))) all_types) [1; 2; 3; 4] = true.
+Proof. exact allow_list_within_rfc. Qed.
+Print Assumptions C08_allow_list_within_rfc.
+
+Theorem C08_allow_list_initial_handshake :
+  forallb (fun lvl => forallb (fun t =>
+     Bool.eqb (type_allowed lvl t) ((t =? 1) || (t =? 2) || (t =? 3) || (t =? 6) || (t =? 28))) all_types) [1; 2] = true.
+Proof. exact allow_list_initial_handshake. Qed.
+Print Assumptions C08_allow_list_initial_handshake.
+
+(** FINDING (low): the faithful table accepts HANDSHAKE_DONE (0x1e) in 0-RTT packets. *)
+Theorem C08_allow_list_0rtt_handshake_done_refuted :
+  exists lvl t, rfc9000_allowed lvl t = false /\ type_allowed lvl t = true /\ type_valid (Cfg false false false 3) t = true.
+Proof. exact allow_list_0rtt_handshake_done_refuted. Qed.
+Print Assumptions C08_allow_list_0rtt_handshake_done_refuted.
+
+(* ==== end frames ==== *)
